@@ -77,8 +77,39 @@ TPaths == /\ Ev.e = "paths" /\ KeepPipe /\ KeepTrav /\ ~Ev.err
                      \* closing a cycle ends some expanded segment
                      /\ \A p, q \in V : (p # <<>> /\ q # <<>> /\ p[Len(p)] = q[Len(q)]) => p = q
                      /\ \A p \in V : \A k \in Out(End(p)) : Simple(NodesOf(Ev.edges, Ev.root, Append(p, k))) => \E q \in V : q # <<>> /\ q[Len(q)] = k
+\* ---- the sequential traversal helpers of package ops
+\*   seq{helper, n, edges, root, skip, limit, paths, nodes}   edges = the edges the plan admits, oriented the way the traversal
+\*        walks them; paths as sequences of edge positions.  What a plan defines is stated on simple walks:
+\*        TraversePaths                = the maximal simple walks of >= 1 edge (no edge leads on to a node not yet on the walk);
+\*                                       with skip / limit any that many of them, none twice
+\*        TraverseIntermediaryPaths    = every simple walk of >= 1 edge (descent filter = no cycle, every node selected)
+\*        AcyclicTraverseNodes         = every node a walk from the root ends at, the root included
+\*        AcyclicTraverseTerminals     : every reachable node without a way on is among them, and only nodes reached by >= 1 edge
+SeqOut(E, v) == {k \in 1..Len(E) : E[k].s = v}
+SeqEnd(E, root, p) == NodesOf(E, root, p)[Len(p) + 1]
+SeqExt(E, root, p) == {k \in SeqOut(E, SeqEnd(E, root, p)) : Simple(NodesOf(E, root, Append(p, k)))}
+RECURSIVE SimpleWalks(_, _, _)
+SimpleWalks(E, root, p) == {p} \cup UNION {SimpleWalks(E, root, Append(p, k)) : k \in SeqExt(E, root, p)}
+NoDupSeq(s) == \A i, j \in 1..Len(s) : i # j => s[i] # s[j]
+SeqSet(s) == {s[i] : i \in 1..Len(s)}
+TSeq == /\ Ev.e = "seq" /\ KeepPipe /\ KeepTrav /\ ~Ev.err /\ ~Ev.panic
+        /\ LET E == Ev.edges
+               W == SimpleWalks(E, Ev.root, <<>>)
+               Max == {p \in W : p # <<>> /\ SeqExt(E, Ev.root, p) = {}}
+               Reached == {SeqEnd(E, Ev.root, p) : p \in W}
+               ByEdge == {E[k].t : k \in {j \in 1..Len(E) : E[j].s \in Reached}}
+               Want == IF Cardinality(Max) > Ev.skip THEN Cardinality(Max) - Ev.skip ELSE 0 IN
+          CASE Ev.helper = "TraversePaths" ->
+                 /\ NoDupSeq(Ev.paths) /\ SeqSet(Ev.paths) \subseteq Max
+                 /\ Len(Ev.paths) = (IF Ev.limit > 0 /\ Ev.limit < Want THEN Ev.limit ELSE Want)
+            [] Ev.helper = "TraverseIntermediaryPaths" -> NoDupSeq(Ev.paths) /\ SeqSet(Ev.paths) = W \ {<<>>}
+            [] Ev.helper = "AcyclicTraverseNodes" -> SeqSet(Ev.nodes) = Reached
+            [] Ev.helper = "AcyclicTraverseTerminals" ->
+                 /\ {v \in Reached \ {Ev.root} : SeqOut(E, v) = {}} \subseteq SeqSet(Ev.nodes)
+                 /\ SeqSet(Ev.nodes) \subseteq ByEdge
+            [] OTHER -> FALSE
 TNext == /\ l <= Len(TraceLog) /\ l' = l + 1
-         /\ (TPlan \/ TDStart \/ TDEnd \/ TCancel \/ TRet \/ TPipe \/ TPSend \/ TPRecv \/ TPClose \/ TPCancel \/ TPRClosed \/ TPDone \/ TIsCycle \/ TPaths)
+         /\ (TPlan \/ TDStart \/ TDEnd \/ TCancel \/ TRet \/ TPipe \/ TPSend \/ TPRecv \/ TPClose \/ TPCancel \/ TPRClosed \/ TPDone \/ TIsCycle \/ TPaths \/ TSeq)
 TSpec == TInit /\ [][TNext]_tvars
 HW == TLCSet(1, IF l > TLCGet(1) THEN l ELSE TLCGet(1))
 Accepted == IF TLCGet(1) = Len(TraceLog) + 1 THEN TRUE ELSE PrintT(<<"STUCK_AT_LINE", TLCGet(1)>>) /\ FALSE
